@@ -304,3 +304,9 @@ func DrainPools() {
 	runtime.GC()
 	runtime.GC()
 }
+
+// ResetProcessState runs every registered reset hook: the process-wide state of
+// the instrumented packages is as it is in a freshly started process. The
+// kernel does this before every run; a harness may do it again before a phase
+// that is meant to start cold (e.g. concurrent callers hitting empty caches).
+func ResetProcessState() { resetProcessState() }
